@@ -206,6 +206,23 @@ func init() {
 		Technique: "deductive verification with ghost state: a prophecy of the byte stream an io.Reader delivers (stream(r,i), delivered(r)); representation invariant 'the buffer holds the last len(buf) delivered bytes' kept by read() for every chunking of the reader; absolute-offset postconditions for Peek/Shift/ShiftLen; VCs from go/ssa discharged by z3/cvc5",
 	})
 	registerProp(&PropSpec{
+		ID: "C15", Title: "Reported line, column and context locate the offending byte",
+		Sel: []Sel{
+			{Pattern: "parse.Position", Levels: "SF"}, {Pattern: "parse.positionContext", Levels: "S"}, {Pattern: "parse.NewError", Levels: "SF"}, {Pattern: "parse.NewErrorLexer", Levels: "F"},
+			{Pattern: "parse.Error.*", Levels: "S"}, {Pattern: "parse.Input.PeekRune", Levels: "SF"}, {Pattern: "parse.Input.Offset", Levels: "S"},
+			{Pattern: "css.Parser.Err", Levels: "SF"}, {Pattern: "buffer.NewReader", Levels: "SF"},
+			{Pattern: "json.Parser.Next", Levels: "F", OnlyTags: []string{"C15"}},
+			{Pattern: "js.Lexer.Next", Levels: "F", OnlyTags: []string{"C15"}}, {Pattern: "js.Lexer.consume*", Levels: "F", OnlyTags: []string{"C15"}},
+		},
+		NotDecided: []string{
+			"the column (code points since the line start: the []rune conversion is modelled only by its length bounds) and the rendered context/caret string (fmt.Sprintf, strings.Repeat)",
+			"that the scan stops exactly at the offset or inside the character containing it (exit condition of the loop; proved are the invariants: cursor <= offset, cursor at a character boundary, line == 1 + breaks ending before the cursor)",
+			"js.Parse's offset 'cursor minus length of the current token' (the JS parser is outside the verified subset); xml and html lexer errors",
+			"NewErrorLexer is trusted for its frame (pure); its body is verified at facet F only (offset inside the input, error carries Position's line)",
+		},
+		Technique: "deductive verification: user-defined recursive spec function lbEnds (line breaks ending before a position) with engine-asserted unfoldings, well-formed-UTF-8 hypothesis as a ghost attribute of the reader, loop invariants of parse.Position; ghost errOff links every error created by NewErrorLexer to the cursor, clauses on json.Parser.Next / js.Lexer.Next / css.Parser.Err bound it to the scanned span; VCs from go/ssa discharged by z3/cvc5",
+	})
+	registerProp(&PropSpec{
 		ID: "C10", Title: "JSON parser accepts every valid document and reproduces it",
 		Sel: []Sel{{Pattern: "json.Parser.*", Levels: "STF"}, {Pattern: "json.NewParser", Levels: "S"}},
 		NotDecided: []string{"every document accepted by encoding/json is accepted (needs induction over the JSON grammar against the iterative state machine)"},
@@ -242,7 +259,7 @@ func (E *Engine) Select(p *PropSpec) []FuncLevel {
 				continue
 			}
 			ct := E.S.Contracts[n]
-			if ct != nil && (ct.Trusted || ct.NoVerify) {
+			if ct != nil && (ct.Trusted && ct.VerifyBody == "" || ct.NoVerify) {
 				continue
 			}
 			have := map[int]bool{}
@@ -252,6 +269,9 @@ func (E *Engine) Select(p *PropSpec) []FuncLevel {
 			for _, lc := range s.Levels {
 				l := facetLevel[string(lc)]
 				if !have[l] {
+					continue
+				}
+				if ct != nil && ct.Trusted && !strings.Contains(ct.VerifyBody, string(lc)) {
 					continue
 				}
 				if ct != nil && strings.Contains(ct.AssumeFacets, string(lc)) {
